@@ -4,12 +4,12 @@
 (* exactly MaxDepth operations is printed as one JSON line.                                                    *)
 EXTENDS MC_PowerLedger, Json
 
-VARIABLE hist          \* sequence of [op, j, arg, parts, src, q]: parts, src = state after the operation,
+VARIABLE hist          \* sequence of [op, j, arg, parts, src, twin, q]: parts, src, twin = state after the operation,
                        \* q[c] = <<1/OSNR_ASE, 1/SNR_NLI, 1/GSNR>> of channel c after it
 
 EmitInit == MCInit /\ hist = <<>>
 EmitNext == /\ MCNext
-            /\ hist' = Append(hist, [op |-> last'.op, j |-> last'.j, arg |-> last'.arg, parts |-> parts', src |-> src',
+            /\ hist' = Append(hist, [op |-> last'.op, j |-> last'.j, arg |-> last'.arg, parts |-> parts', src |-> src', twin |-> twin',
                                       q |-> [c \in Chan |-> LET ch == Led(parts', c) IN <<InvOsnr(ch), InvNli(ch), InvGsnr(ch)>>]])
 
 Emit == Len(hist) < MaxDepth \/ PrintT("@@" \o ToJson(hist))
